@@ -75,7 +75,7 @@ LEVEL_TEXT = ('Machine-checked theorems over the executable model, for registrat
               '(accept_wf proved of make\'s output); the regenerated MultiView.add, sort_accept_offers and attr_wrapped_view equal the model; '
               'registration is local to a slot (the adapter at a slot, and every lookup, depend only on the per-slot subsequences of '
               'add_view calls; a slot key computed two ways is refuted by a witness); overrides replace in place and keep ties in '
-              'first-registration order.')
+              'first-registration order, also when interleaved with new registrations.')
 LEVEL_NOTE = ('Trusted: Coq kernel; the translator\'s primitive table (control flow of the lookup, make and the predicate bodies is '
               'regenerated, not pinned; so are the text()/phash() bodies and five constructors); the hand-written model of the functions that are still pinned (register_view, '
               'normalize_accept_offer, the one-line predicate constructors; validated by correspondence); Python harness; '
